@@ -274,6 +274,16 @@ impl Prop for C04 {
                 }
             }
         }
+        if case.fam == "power-wide" {
+            // how large a unit power may be is the tool's choice: a written power of five digits that
+            // the tool refuses is not judged; one it accepts must be counted exactly
+            let five = case.key.split('^').skip(1).any(|t| t.trim_start_matches('-').chars().take_while(|c| c.is_ascii_digit()).count() >= 5);
+            if five {
+                if let Ok(crate::obs::Res::Err { .. }) = crate::obs::eval_one(env.db(), &case.key) {
+                    return Verdict::DontCare("a unit power of five digits that the tool refuses");
+                }
+            }
+        }
         exprcheck::verdict(env.db(), &e, true)
     }
     fn bounds(&self, tier: Tier) -> serde_json::Value {
